@@ -30,6 +30,21 @@ def gen_cases(rng, tier, ctx):
                    'cfg': dict(data=d, wl=wl, modes=m, macros=False, fnc1=False, eci=None)})
     cs += gen.boundary_cases(rng, tier, per_cap=2 if tier == 'quick' else 6)
     cs += [c for c in gen.constant_cases(rng, tier) if len(c['cfg']['data']) <= 260]
+    # long inputs, judged by the two-mode (ASCII / Base256) bound: the constant and upper-limit families, and runs of high
+    # bytes around the 249/250 length-field border between short ASCII runs, sized to land on a symbol capacity
+    cs += [c for c in gen.constant_cases(rng, tier) if len(c['cfg']['data']) > 260 and c['cfg']['modes'] & 33 == 33]
+    capset = sorted(set(gen.caps()))
+    for k in range(0, 7):
+        for B in (247, 248, 249, 250, 251, 252, 499, 500):
+            for cap in [c for c in capset if c >= k + B + 3][:2]:
+                for extra in (0, 1):
+                    p = cap - (k + 2 + (0 if B <= 249 else 1) + B) - extra
+                    if p < 0:
+                        continue
+                    d = [97 + (i % 26) for i in range(k)] + [rng.choice(gen.ALPH['high']) for _ in range(B)] + [48 + (i % 10) for i in range(2 * p)]
+                    for wl in (gen.ALL48, [i for i, x in enumerate(gen.caps()) if x == cap][:1]):
+                        cs.append({'line': gen.encode_line(d, wl, 63, False, False, None), 'cat': 'b256-threshold',
+                                   'cfg': dict(data=d, wl=wl, modes=63, macros=False, fnc1=False, eci=None)})
     for d, wl in ((list(b"ABCDEFGH12345678"), [3]), (list(b"ABCDEFGH12345678"), gen.DEFAULT), ([200] * 1556, gen.DEFAULT),
                   (list(b"12345678"), [0, 1])):
         cs.append({'line': gen.encode_line(d, wl, 63, False, False, None), 'cat': 'former-finding',
@@ -87,6 +102,29 @@ def check_impl(c, out, ctx, prof):
         if fit is not None and (sym is None or sp[fit]['data'] < sp[sym]['data']):
             return 'plain %s encodation needs %d codewords and fits %s, encoder %s' % (
                 name, need, common.VARIANTS[fit], 'refused the data' if sym is None else 'used ' + common.VARIANTS[sym])
+    # two-mode bound: the best segmentation into ASCII runs and Base256 fields with explicit length (any input length)
+    if (m & 33) == 33 and 48 < len(d) <= 1700:
+        need = pre + refenc.ab_bound(d)
+        fit = next((i for i in lst if sp[i]['data'] >= need), None)
+        if fit is not None and (sym is None or sp[fit]['data'] < sp[sym]['data']):
+            long_field = False
+            gap = 'refused'
+            if sym is not None:
+                long_field = any(mo == 'Base256' and k >= 250 for mo, k in r['segments'])
+                gap = str(used - need)
+            else:
+                # how long is the encoder's own stream when every size is available?
+                line = gen.encode_line(d, gen.ALL48, m, cfg.get('macros', False), cfg.get('fnc1', False), None)
+                o2 = ctx.impl([line], prof)[0]
+                if o2.startswith('ok '):
+                    d2 = ints(o2.split(' ')[2])
+                    r2 = refdec.decode(d2)
+                    u2 = len(d2) if r2['error'] or r2['pad_start'] is None else r2['pad_start']
+                    gap = 'refused gap_all=%d' % (u2 - need)
+                    long_field = (not r2['error']) and any(mo == 'Base256' and k >= 250 for mo, k in r2['segments'])
+            return 'ASCII/Base256 segmentation needs %d codewords and fits %s, encoder %s [ab-gap=%s long-field=%d]' % (
+                need, common.VARIANTS[fit], 'refused the data' if sym is None else 'used %d codewords in %s' % (used, common.VARIANTS[sym]),
+                gap, int(long_field))
     # exact search in every smaller capacity of the list
     if len(d) <= maxlen and m != 0:
         for cap in sorted(set(sp[i]['data'] for i in smaller), reverse=True):
@@ -98,6 +136,8 @@ def check_impl(c, out, ctx, prof):
                 if rd['error'] is None and list(rd['data']) == d and len(s) == cap:
                     gap = 'refused' if sym is None else str(used - cap)
                     fit = 'exact-fit' if rd['pad_start'] is None else 'padded'
+                    if fit == 'exact-fit' and rd['implicit']:
+                        fit = 'exact-fit-end-form'      # the witness ends a run without unlatch at the symbol end
                     if sym is None:
                         # how long is the encoder's own stream when every size is available?
                         line = gen.encode_line(d, gen.ALL48, m, cfg.get('macros', False), cfg.get('fnc1', False), None)
@@ -115,10 +155,14 @@ def check_impl(c, out, ctx, prof):
 def classify(c, out, why):
     """known finding C10-exact-fit: the optimiser does not price every exact-fit end-of-symbol form; its stream is
     at most two codewords longer than a legal stream that ends, without padding, exactly at a smaller listed capacity"""
-    if 'a legal stream of' in why and 'witness=exact-fit' in why and ('gap=1 ' in why or 'gap=2 ' in why):
+    if 'a legal stream of' in why and 'witness=exact-fit-end-form' in why and ('gap=1 ' in why or 'gap=2 ' in why):
         return 'C10-exact-fit'
-    if 'a legal stream of' in why and 'witness=exact-fit' in why and ('gap=refused gap_all=1 ' in why or 'gap=refused gap_all=2 ' in why):
+    if 'a legal stream of' in why and 'witness=exact-fit-end-form' in why and ('gap=refused gap_all=1 ' in why or 'gap=refused gap_all=2 ' in why):
         return 'C10-exact-fit-refusal'
+    if 'ASCII/Base256 segmentation needs' in why and 'ab-gap=1 long-field=1' in why:
+        return 'C10-base256-run-length'
+    if 'ASCII/Base256 segmentation needs' in why and 'ab-gap=refused gap_all=1 long-field=1' in why:
+        return 'C10-base256-run-length-refusal'
     return None
 
 
